@@ -81,6 +81,17 @@ def highs(err):
     return res
 
 
+def highs_max(err):
+    """the largest of each high-water mark over the files of a run"""
+    res = {}
+    for k, rx in RE_HIGH.items():
+        vals = [int(x) for x in re.findall(rx.pattern, err, rx.flags)]
+        if not vals:
+            raise ToolError("summary line %r not found" % k)
+        res[k] = max(vals)
+    return res
+
+
 def measure_aligned(sc):
     """block-aligned lines on a plain file: does the held-block count stay small?"""
     B = 64
@@ -194,10 +205,45 @@ def run(pid, tier, seed):
                                   % (key, vals, decades, dist, cont, B, ", windowed" if win else ""), rec)
             if len(samples) < 4:
                 samples.append(rec)
+        # two files in one run, all of the second one's messages later than the first one's: while the first is printed the
+        # second one's reader can only run as far ahead as the channel lets it -- what it holds stays bounded whatever its size
+        two_runs = 0
+        for cont in (["plain", "gz"] if tier == "quick" else ["plain", "gz", "bz2", "lz4"]):
+            B = 256
+            early = b"".join(b"%s early %d\n" % (gen.fmt_ts(gen.BASE + k_, 0, None, 0).encode(), k_) for k_ in range(1, 12001))
+            vals_by_key = {k_: [] for k_ in ("blocks high", "lines high", "syslines high")}
+            sizes = [10, 100, 1000] + ([4000] if tier == "thorough" else [])
+            for nb in sizes:
+                d = os.path.join(sc, "two", "%s_%d" % (cont, nb))
+                os.makedirs(d)
+                later = b"".join(b"%s later %d %s\n" % (gen.fmt_ts(gen.BASE + 86400 + k_, 0, None, 0).encode(), k_, b"l" * 30) for k_ in range(1, nb * B // 60 + 1))
+                name = {"plain": "later.log", "gz": "later.log.gz", "bz2": "later.log.bz2", "lz4": "later.log.lz4"}[cont]
+                data = {"plain": lambda: later, "gz": lambda: gen.gz_bytes(later, 1), "bz2": lambda: gen.bz2_bytes(later, 1), "lz4": lambda: gen.lz4_bytes(later)}[cont]()
+                gen.write(os.path.join(d, "early.log"), early)
+                gen.write(os.path.join(d, name), data)
+                rr = common.run_s4(["--color", "never", "--blocksz", str(B), "-s", "early.log", name], cwd=d, timeout=600)
+                two_runs += 1
+                import shutil
+                shutil.rmtree(d, ignore_errors=True)
+                if rr.crashed or len(rr.out) != len(early) + len(later):
+                    rep.violation("two-files:output", "early.log + %s: %d of %d bytes printed (rc=%s)" % (name, len(rr.out), len(early) + len(later), rr.rc),
+                                  {"kind": "c17-two", "container": cont, "later_blocks": nb})
+                    break
+                h = highs_max(rr.err)
+                for k_ in vals_by_key:
+                    vals_by_key[k_].append(h[k_])
+            else:
+                for k_, vals in vals_by_key.items():
+                    lpb = B // 20
+                    allow = 4 * 2 + 8 if k_ == "blocks high" else (4 * 2 + 8) * lpb + 8
+                    if vals[-1] > allow or (vals[-1] > 3 * max(vals[1], 10) and vals[-1] > 1.5 * vals[-2]):
+                        rep.violation("growth:%s:%s:two-files" % (k_.split()[0], cont),
+                                      "%s of the later of two files grows with its size: %s for %s blocks (%s, --blocksz %d, an earlier file printed first)"
+                                      % (k_, vals, sizes, cont, B), {"kind": "c17-two", "container": cont, "values": vals})
         if predicted and not reproduced and not rep.known_hits:
             rep.note_drift("Stream3.tla with measured ALIGNED=%s violates Bounded (%s) but no growth was measured" % (aligned, predicted))
         rep.coverage = {"states": states, "transitions": trans, "traces_validated_against_impl": 0,
-                        "evaluations": len(jobs) * len(decades), "distinct_nontrivial": len(jobs) * (len(decades) - 1),
+                        "evaluations": len(jobs) * len(decades) + two_runs, "two_file_runs": two_runs, "distinct_nontrivial": len(jobs) * (len(decades) - 1),
                         "rule": "one evaluation = one --summary run on a generated log; a series = the same line-length distribution, "
                                 "container and --blocksz at %s blocks; non-trivial = sizes >= 100 blocks" % decades,
                         "samples": samples, "aligned_measured": aligned, "model_prediction": predicted, "exhaustive": False}
